@@ -42,6 +42,10 @@ def check(run):
     for name, fmt in (("bgra", 0x1450), ("bc1", 0x3420), ("bc3", 0x3431), ("bc5", 0x6230)):
         t = tex_file(fmt, 9, 6, rng)
         bases.append(faults.base("tex:" + name, "tex", t, [(0, 4), (4, 4), (8, 2), (10, 2), (12, 2), (14, 2), (16, 4), (28, 4)]))
+    # tall textures: one damaged dimension is then enough to make the decoded size exceed any budget
+    for name, fmt in (("bgra-tall", 0x1450), ("bc3-tall", 0x3431)):
+        t = tex_file(fmt, 4, 2048, rng)
+        bases.append(faults.base("tex:" + name, "tex", t, [(8, 2), (10, 2), (12, 2), (14, 2)]))
     cols = [(0, 0), (7, 4), (25, 8), (26, 8), (9, 12), (11, 16)]
     rows = [(5, [[{"t": "str", "b": [72, 105]}, {"t": "u32", "b": [0, 0, 0, 7]}, {"t": "bool", "b": [1]}, {"t": "bool", "b": [0]},
                   {"t": "f32", "b": [63, 128, 0, 0]}, {"t": "u64", "b": [0] * 7 + [9]}]]), (6, [[{"t": "str", "b": []}, {"t": "u32", "b": [0, 0, 0, 1]},
@@ -75,7 +79,12 @@ def check(run):
     for kind in ("legacy", "dawntrail", None):
         mb_ = mtrlshpk.mtrl(c14.material(rng, kind))
         bases.append(faults.base("mtrl:%s" % (kind or "plain"), "mtrl", mb_, faults.words(len(mb_), 200) + [(4, 2), (6, 2), (8, 2), (10, 2), (12, 1), (13, 1), (14, 1), (15, 1)]
-                                 + faults.words(len(mb_) - 4, len(mb_), 4)[-40:]))
+                                 + faults.words(len(mb_) - 4, len(mb_), 4)[-40:]
+                                 + [(o, 2) for o in range(max(0, len(mb_) - 200), len(mb_) - 1, 2)]))
+    # a small material whose first constant fills the four-float value array and is followed by more values
+    mc_ = mtrlshpk.mtrl({"shpk": "x.shpk", "textures": ["t/a.tex"], "uv_sets": 0, "color_sets": 0, "table": None, "flags": 0,
+                         "keys": [(1, 2)], "constants": [(0x11, [1, 2, 3, 4]), (0x22, [5, 6]), (0x33, [7])], "samplers": [(0, 0, 0)]})
+    bases.append(faults.base("mtrl:consts", "mtrl", mc_, [(o, 2) for o in range(0, len(mc_) - 1, 2)]))
     pk, _ = c14.package(rng)
     pb_ = mtrlshpk.shpk(pk)
     bases.append(faults.base("shpk:gen", "shpk", pb_, faults.words(len(pb_), 160) + [(o, 4) for o in range(160, len(pb_) - 4, 12)][:200]))
@@ -86,11 +95,16 @@ def check(run):
         h = 28 if ver == 1 else 36
         bases.append(faults.base("sklb:v%d" % ver, "sklb", sb_, [(0, 4), (4, 4), (8, 2), (10, 2), (8, 4), (12, 4), (h, 4), (h + 4, 4)]
                                  + [(o, 1) for o in range(h + 8, len(sb_) - 150)]))
+    # 101 -> {201, 301}; 201 -> {401, 501}; 401 -> {601, 701}: walks of depth 3 from nodes that have a sibling
     items = [{"body_id": 101, "parent": -1, "bones": [("j_kosi", [1] * 12)]}, {"body_id": 201, "parent": 0, "bones": [("n_hara", [2] * 12), ("j_kao", [3] * 12)]},
-             {"body_id": 301, "parent": 0, "bones": []}, {"body_id": 401, "parent": 1, "bones": [("x", [4] * 12)]}]
-    pd_ = assets16.pbd(items, perm=[2, 0, 3, 1])
-    bases.append(faults.base("pbd:gen", "pbd", pd_, [(0, 4)] + [(4 + 12 * i + o, w) for i in range(4) for (o, w) in ((0, 2), (2, 2), (4, 4))]
-                             + [(52 + 8 * i + o, 2) for i in range(4) for o in (0, 2, 4, 6)] + faults.words(len(pd_), len(pd_))[21:]))
+             {"body_id": 301, "parent": 0, "bones": []}, {"body_id": 401, "parent": 1, "bones": [("x", [4] * 12)]},
+             {"body_id": 501, "parent": 1, "bones": []}, {"body_id": 601, "parent": 3, "bones": [("y", [5] * 12)]}, {"body_id": 701, "parent": 3, "bones": []}]
+    ni = len(items)
+    pd_ = assets16.pbd(items, perm=[2, 0, 3, 1, 6, 4, 5])
+    lk = 4 + 12 * ni
+    bases.append(faults.base("pbd:gen", "pbd", pd_, [(0, 4)] + [(4 + 12 * i + o, w) for i in range(ni) for (o, w) in ((0, 2), (2, 2), (4, 4))]
+                             + [(lk + 8 * i + o, 2) for i in range(ni) for o in (0, 2, 4, 6)] + faults.words(len(pd_), len(pd_))[(lk + 8 * ni) // 4:]))
+    pbd_base = bases[-1]
     tb_ = assets16.tera(128, [(0, 0), (-1, 5), (300, -300)])
     bases.append(faults.base("tera:gen", "tera", tb_, [(0, 4), (4, 4), (8, 4), (12, 4), (16, 4), (52, 2), (54, 2), (60, 2)]))
     lg_ = open(REPO + "/resources/tests/empty_planlive.lgb", "rb").read()
@@ -100,7 +114,7 @@ def check(run):
     run.notes["fault_space"] = {"bases": len(bases), "faults": sum(len(v) for v in space.values()), **st}
     run.mc.append({"module": "mc/Gen_Faults.tla", "cfg": "mc/Gen_Faults.cfg", "states": st["states"], "transitions": st["transitions"],
                    "wall_s": 0, "actions": {}, "never_taken": []})
-    cases, n = faults.cases_for(bases, space, rng, 0, per_base=None if run.tier == "thorough" else 300,
+    cases, n = faults.cases_for(bases, space, rng, 0, per_base=None if run.tier == "thorough" else 900,
                                 leakcheck=lambda b: b["entry"] == "dat.read")
     bc, n = faults.blob_cases(BLOB_ENTRIES, rng, n)
     for c in bc:            # a damaged data file is read with a valid header
@@ -147,7 +161,13 @@ def check(run):
             g[blk + 16 + k] ^= 0xFF
             extra.append(faults.line(n, {"id": "dat:garbled-" + mode, "entry": "dat.read", "extra": {}}, {"k": "garble", "what": k}, bytes(g),
                                      leakcheck=True, off=2048, path_fault="none"))
-    cases.append(Case(extra, desc={"installation fault sequences": len(extra)}))
+    # link cycles of the deformer (named members of the fault space): every parent field set to every link index
+    for i in range(ni):
+        for j in range(ni):
+            g = bytearray(pd_)
+            g[lk + 8 * i:lk + 8 * i + 2] = struct.pack("<h", j)
+            extra.append(faults.line(n, pbd_base, {"k": "link", "what": [i, j]}, bytes(g)))
+    cases.append(Case(extra, desc={"installation fault sequences and deformer link cycles": len(extra)}))
     run.rule = ("every (base, fault) pair of the fault space enumerated by TLC from Faults.tla over generated valid bases (model, four texture "
                 "formats, EXH, EXD incl. read_row on every id, index, dat entries of each kind, three materials, shader package, skeleton "
                 "containers v1 / v2 byte by byte through the tag file, deformer with queries, terrain, layer group; quick: a seeded 300 per base), arbitrary "
